@@ -140,7 +140,7 @@ func configCase(c M) M {
 		discWorld = w
 	})
 	o := M{"issuerDoc": "other", "issuerToken": "none", "badEndpoints": []string{}, "grantsAdv": []string{}, "grantsAcc": []string{},
-		"s256Adv": false, "s256OK": false, "plainOK": false, "reqobjAdv": false, "reqobjOK": false, "reqobjInnerOK": false, "issuerImplicit": "none", "panic": false}
+		"s256Adv": false, "s256OK": false, "plainOK": false, "reqobjAdv": false, "reqobjOK": false, "reqobjInnerOK": false, "issuerImplicit": "none", "pkceEnforced": true, "panic": false}
 	p := CatchPanic(func() {
 		d := buildDisc(c)
 		r := d.do(http.MethodGet, d.issuer+"/.well-known/openid-configuration", nil, nil)
@@ -303,6 +303,33 @@ func configCase(c M) M {
 		}
 		_, o["s256OK"] = flow("S256")
 		_, o["plainOK"] = flow("plain")
+		// ---- PKCE for a private_key_jwt client: S256 challenge at authorize, assertion + a WRONG verifier (and none) at the token endpoint
+		if B(Sub(c, "flags"), "pkjwt") {
+			for _, wrong := range []string{"another-verifier-0123456789abcdefghijklmnopqrstuvwxyzABCDEF", ""} {
+				q := url.Values{"client_id": {"cj"}, "redirect_uri": {opdrv.ConcreteURI["ucj"]}, "response_type": {"code"}, "scope": {"openid"}, "state": {"s"},
+					"code_challenge": {oidc.NewSHACodeChallenge("the-right-verifier-0123456789abcdefghijklmnopqrstuvwxyzAB")}, "code_challenge_method": {"S256"}}
+				r := d.do(http.MethodGet, doc.AuthorizationEndpoint, q, nil)
+				id := strings.TrimPrefix(r.Location, "/login?authRequestID=")
+				if r.Status != http.StatusFound || id == r.Location {
+					continue
+				}
+				d.store.Login(id, "u1")
+				r = d.do(http.MethodGet, doc.AuthorizationEndpoint+"/callback", url.Values{"id": {id}}, nil)
+				u, err := url.Parse(r.Location)
+				if err != nil || u.Query().Get("code") == "" {
+					continue
+				}
+				form := url.Values{"grant_type": {"authorization_code"}, "code": {u.Query().Get("code")}, "redirect_uri": {opdrv.ConcreteURI["ucj"]},
+					"client_assertion_type": {oidc.ClientAssertionTypeJWTAssertion},
+					"client_assertion":      {opdrv.SignAssertion("cj", "cj", []string{doc.Issuer}, time.Now(), time.Now().Add(time.Minute), opdrv.ClientKey("cj"))}}
+				if wrong != "" {
+					form.Set("code_verifier", wrong)
+				}
+				if r = d.do(http.MethodPost, doc.TokenEndpoint, form, nil); r.Status == 200 && strings.Contains(r.Body, "access_token") {
+					o["pkceEnforced"] = false
+				}
+			}
+		}
 		// ---- request objects
 		o["reqobjAdv"] = doc.RequestParameterSupported
 		{
